@@ -187,3 +187,14 @@ PROPS["C05"]["srcfacts"] = True
 PROPS["C15"]["srcfacts"] = True
 for _p in ("C13", "C17", "C11", "C20"):
     PROPS[_p]["srcfacts"] = True
+
+# ---- later additions (rounds 7-9 of the seeded changes, Proofs/SpecFacts.v, history steps with writer faults)
+PROPS["C02"]["level_text"] += " Also (Proofs/SpecFacts.v): C02_missing_right_operand_partial / _model — a right-hand variable that does not exist leaves the specified domain in the reference semantics, and sends the interpreter model into the else branch for all six operators (the repaired code: the lookup buffer no longer carries an earlier value or the loop index)."
+PROPS["C03"]["level_text"] += " Also (Proofs/SpecFacts.v): C03_index_path / _int / _model — inside a counting loop a[i].b reads exactly like a.<text of i>.b, outside of one the brackets are part of the name (C03_no_index_outside_loops); only the first bracket pair is substituted (the two-bracket form is refuted by a witness). Each run also ranges over slices of numbers, structs, pointers and strings of 0-5 elements and over collections of 256-300 elements."
+PROPS["C11"]["level_text"] += " C11_failing_modifier_prints_nothing: a print whose chain fails emits nothing, prefix and suffix included, and the render goes on."
+PROPS["C14"]["level_text"] += " A control instruction written in a for-else branch names the loops around the loop (C14_run_else_hands_on, C14_counter_loop_else_signal, C14_range_loop_else_signal, C14_break_in_for_else_agrees, C14_break2_in_for_else_agrees); the refinement theorem covers it."
+PROPS["C15"]["level_text"] += " C15_counter_init / C15_counter_step / C15_env_set_reads_back: a counter step changes whatever integer the name holds by exactly the step, whoever produced it."
+PROPS["C05"]["level_text"] += " Histories may contain renders cut by a failing writer (HRenderF): all history theorems cover them; C05_reset_after_failed_render: the Reset after any such render leaves a new context."
+PROPS["C18"]["level_text"] += " C18_faulted_render_keeps_deferred, C18_failed_render_runs_no_deferred, C18_reset_drops_pending_deferred: a render that fails (writer or otherwise) runs no deferred function, keeps what it registered and acquired, and the next Reset drops the former and releases each of the latter once."
+PROPS["C16"]["level_text"] += " Each run also executes the include/exit templates as histories on one context (failing nested includes, exits, then further renders with and without Reset) against the model."
+PROPS["C06"]["level_text"] += " Workers that never return from the engine (a lock taken twice, a lock order) are reported with all goroutine stacks."
